@@ -32,7 +32,7 @@ STUB = ['host (supplies numeric variables of every Python numeric type)']
 REACH_PROBES = ('host_int_operand', 'long_int_operand', 'float_operand', 'big_exponent_operand', 'mul_on_non_number_refused',
                 'compound_mul', 'compound_index_mul', 'pow', 'numeric_builtin', 'arithmetic_error', 'chain5')
 
-VARS = ['i', 'j', 'k', 'k2', 'm47', 'm47b', 'b10', 'big', 'huge', 'f', 'g', 't', 'd', 'e', 'm', 'w']
+VARS = ['i', 'j', 'k', 'k2', 'm47', 'm47b', 'b10', 'big', 'huge', 'f', 'g', 't', 'd', 'e', 'm', 'w', 'hs', 'he', 'hs2']
 SMALL_EXPONENTS = ['i', 'j', 't', 'w', 'd']     # exponents are kept small so that a tree computing ** natively still terminates
 
 
@@ -55,6 +55,9 @@ def _world(r):
         'e': {'d': r.choice(['1E+5000', '1E-5000', '9.99E+4000', '1E+50', '-1E+100', '1E+28'])},
         'm': {'d': r.choice(['1234567890123456789012345678901234567890', '1.234567890123456789012345678901234567890'])},
         'w': {'d': r.choice(['3', '10', '0', '0.5'])},
+        'hs': {'isub': str(r.choice([2 ** 64 - 1, 10 ** 18 + 3, 12345678901234567890123]))},        # int subclass instances
+        'hs2': {'isub': str(r.choice([10 ** 15 + 1, 7, 2 ** 62 + 1]))},
+        'he': {'ienum': str(r.choice([10 ** 17 + 9, 2 ** 63, 3]))},                                 # an IntEnum member
         's': 'ab',
         'l': [1, 2],
         'c': {'m': [['k', r.choice([3, {'d': '2.5'}, {'i': str(10 ** 30)}, 'ab', [1]])], ['q', {'d': '4'}]]},
